@@ -114,6 +114,12 @@ CHECKS = {
   text="~800 programs: services (5 verbs x 6 path patterns x response / empty response / no response x 3 basePath forms), topics, entities (all single and pairwise deviations of the entity model), a multi-file package, every field type x {body, query, response, path} x {plain, array, map}, one list rule on one field x 13 field types x {top, nested, below a oneof arm, in a recursive item}, self- and mutually-recursive objects and oneofs in request, response, list items and entity data. Oracle: no stage errors, panics, overflows the stack or hangs; the client API JSON is valid; the client API lists exactly the declared methods (incl. the entity query and command services) with the declared verb and path; path / query / body split as the verb dictates; every path parameter occurs in the path; state entities carry name, primary key, events, state schema; every schema referenced anywhere in the client API is present in it.",
   note="which fields a list request offers is recorded as an outcome class, not judged (not part of the statement)",
   design="3/C16"),
+ "C15": dict(
+  engine="E1",
+  technique=TECH_E1 + "; for every descriptor set: APIFromImage -> PackageSetFromSourceAPI -> ToJ5Root of every schema compared with the first export (proto.Equal), repeated on the re-exported API (second round trip), plus an independent walk of the rebuilt set for references without a target",
+  text="~14400 descriptor sets: (a) every j5s program family of C02 / C04 / C16 compiled in memory, listed in the image with all packages and with each single package; (b) raw sets: 31 proto field types x 4 labels x ~90 annotations, the 50 structures of C18 (message options, entity markers, any-membership, enum shapes and info fields, oneofs, recursion, flatten chains, one message carrying every rule / list-rule kind the reflection can produce); (c) package layouts: prefix-related package names (shop.v1 / shop.v10), sub-packages of listed and of indirect packages, cross-package object / enum / oneof references, 10 single reference edges and all together x all 15 ordered package listings. Oracle: import succeeds, no unresolved reference, every exported schema present and equal on re-export (two rounds), nothing invented.",
+  note="descriptor sets the reflection rejects are counted as a class (C18 decides whether it may); a field-coverage probe (C15_FIELDCOV) lists the schema fields no generated set populates: only fields the reflection cannot produce remain (inline object/oneof/enum, ext, object rules, oneof rules, tenant_key, multiple_of, EntityJoin)",
+  design="3/C15"),
 }
 
 PENDING = {
